@@ -1,7 +1,7 @@
 ---------------------------- MODULE CConst_Eval ----------------------------
 (* Idioms E + G: one record per integer constant expression that the        *)
 (* harness gave to ppci's C front-end.                                       *)
-(*   rec = [key, site, dm, dest, e, enums,                                   *)
+(*   rec = [key, site, dm, dest, e, enums, members,                          *)
 (*          out : [ok : BOOLEAN, diag : BOOLEAN, exc : STRING,               *)
 (*                 bytes : Seq(0..255), amount : Int]]                       *)
 (* out is what was observed:  ok = the front-end produced IR (bytes = the    *)
@@ -39,7 +39,7 @@ ValueAsPrescribed(r, x) ==
     (Judged(x) /\ r.out.ok) =>
         CASE r.site \in DataSites -> r.out.bytes = x.bytes
           [] r.site = "array"     -> r.out.amount = x.amount
-          [] OTHER -> TRUE            \* case / bitfield: judged by CConst_IR on the probes
+          [] OTHER -> TRUE            \* case / bitfield / bfinit: judged by CConst_IR on the probes
 Violated(r, x) == (IF NoInternalError(r, x) THEN <<>> ELSE <<"NoInternalError">>)
                   \o (IF Accepted(r, x) THEN <<>> ELSE <<"Accepted">>)
                   \o (IF ValueAsPrescribed(r, x) THEN <<>> ELSE <<"ValueAsPrescribed">>)
@@ -62,8 +62,9 @@ ClassifyEnumerator  == Classify({"enum"})
 ClassifyArrayBound  == Classify({"array"})
 ClassifyCaseLabel == Classify({"case"})
 ClassifyBitFieldWidth == Classify({"bitfield"})
+ClassifyBitFieldInitialiser == Classify({"bfinit"})
 Next == \/ PickChunk \/ ClassifyInitialiser \/ ClassifyEnumerator \/ ClassifyArrayBound
-        \/ ClassifyCaseLabel \/ ClassifyBitFieldWidth
+        \/ ClassifyCaseLabel \/ ClassifyBitFieldWidth \/ ClassifyBitFieldInitialiser
 
 TypeOK == /\ exp.st \in {"", "ok", "undefined", "skip"}
           /\ (i > 0 => exp.st # "")
